@@ -1,0 +1,6 @@
+//go:build !verif
+
+package server
+
+// verifPoint is a yield point used only by builds with the "verif" tag.
+func verifPoint(string) {}
